@@ -1937,9 +1937,14 @@ class Convention(abc.ABC, Generic[GridKind, Index]):
 
     def ocean_floor(self) -> xarray.Dataset:
         """An alias for :func:`emsarray.operations.depth.ocean_floor`"""
+        non_spatial_variables = []
+        try:
+            non_spatial_variables.append(self.time_coordinate)
+        except NoSuchCoordinateError:
+            pass
         return depth.ocean_floor(
             self.dataset, self.depth_coordinates,
-            non_spatial_variables=[self.time_coordinate])
+            non_spatial_variables=non_spatial_variables)
 
     def normalize_depth_variables(
         self,
